@@ -196,8 +196,8 @@ IFACES = ["float", "list", "array", "npfloat"]
 # logpdf raise TypeError (a refusal, not a wrong number) -- these families are driven with floats and ndarrays only
 RAW_FAMILIES = {"Normal": ["float", "array", "npfloat_or_array"], "Laplace": ["float", "array", "npfloat_or_array"],
                 "Uniform": ["float", "array", "npfloat_or_array"]}
-VIAS = {"Normal": ["direct", "cond", "callable", "logd"], "Cauchy": ["direct", "cond", "callable"],
-        "Gamma": ["direct", "cond", "logd"], "Uniform": ["direct", "cond"], "Laplace": ["direct", "cond"],
+VIAS = {"Normal": ["direct", "cond", "callable", "logd", "named"], "Cauchy": ["direct", "cond", "callable", "named"],
+        "Gamma": ["direct", "cond", "logd", "named"], "Uniform": ["direct", "cond"], "Laplace": ["direct", "cond"],
         "SmoothedLaplace": ["direct", "callable"], "Beta": ["direct"], "InverseGamma": ["direct"],
         "ModifiedHalfNormal": ["direct"], "Lognormal": ["direct"]}
 
@@ -262,6 +262,8 @@ def pass_value(vals, iface, n):
         iface = "npfloat" if len(vals) == 1 else "array"
     if len(vals) == 1:
         v = vals[0]
+        if iface == "int":
+            return int(v) if float(v).is_integer() else float(v)
         return {"float": float(v), "npfloat": np.float64(v), "list": [float(v)], "array": np.array([float(v)])}[iface]
     if iface in ("list",):
         return [float(v) for v in vals]
@@ -294,6 +296,8 @@ def build_dist(cuqi, fam, P, n, ifaces, via):
         kw[first] = lambda par_: par_
         d = cls(**kw, geometry=n)
         return d(par_=vals[first]), None
+    if via == "named":            # optional arguments of the entry points: name=, a Geometry object, keyword evaluation logd(name=x)
+        return cls(**kw, geometry=cuqi.geometry.Continuous1D(n), name="xx"), "named"
     raise ValueError(via)
 
 
@@ -414,6 +418,8 @@ def evaluate(dist, method, x, condvals=None):
     with warnings.catch_warnings():
         warnings.simplefilter("ignore")
         with np.errstate(all="ignore"):
+            if condvals == "named":
+                return dist.logd(xx=xa) if method == "logd" else getattr(dist, "pdf" if method == "pdf_own" else method)(xa)
             if method == "logd":
                 if condvals:
                     return dist.logd(*condvals, xa)
@@ -514,6 +520,63 @@ def scalar_cdf_cases(ctx, cuqi, state, cases, stats):
                     one_scalar_case(ctx, cuqi, state, cases, stats, fam, P, x, n, forms, "direct", ifaces, "cdf", dist, condvals, cell_suffix="/int-shape")
 
 
+def scalar_falsy_cases(ctx, cuqi, state, cases, stats):
+    """falsy-but-legitimate values: location / mean / low = integer 0, evaluation point all zeros (or on the boundary), integers
+    as parameter values"""
+    rng = ctx.rng
+    for fam, P, x in [("Normal", {"mean": [0.0], "std": [1.0]}, [0.0, 0.0]), ("Normal", {"mean": [0.0], "std": [2.0]}, [0.0]),
+                      ("Laplace", {"location": [0.0], "scale": [1.0]}, [0.0, 0.0, 0.0]), ("Cauchy", {"location": [0.0], "scale": [1.0]}, [0.0, 0.0]),
+                      ("SmoothedLaplace", {"location": [0.0], "scale": [2.0], "beta": [0.5]}, [0.0, 0.0]),
+                      ("Uniform", {"low": [0.0], "high": [1.0]}, [0.0, 1.0]), ("Uniform", {"low": [-1.0], "high": [0.0]}, [0.0]),
+                      ("InverseGamma", {"shape": [2.0], "location": [0.0], "scale": [1.0]}, [1.0, 2.0]),
+                      ("Gamma", {"shape": [1.0], "rate": [1.0]}, [1.0, 1.0]), ("Lognormal", {"mean": [0.0, 0.0], "cov": [1.0]}, [1.0, 1.0])]:
+        names = FAMILIES[fam][0]
+        n = len(x)
+        forms = "".join("S" if len(P[nm]) == 1 else "V" for nm in names)
+        ifaces = ["int"] * len(names)
+        for method in ("logpdf", "logd"):
+            dist, condvals = build_dist(cuqi, fam, P, n, ifaces, "direct")
+            one_scalar_case(ctx, cuqi, state, cases, stats, fam, P, x, n, forms, "direct", ifaces, method, dist, condvals, cell_suffix="/falsy-values")
+
+
+def scalar_boundary_reassign_cases(ctx, cuqi, state, cases, stats):
+    """(a) evaluation points exactly ON the boundary of the support (closed for Uniform, open for Beta / InverseGamma / Lognormal; Gamma at 0),
+    (b) parameters re-assigned on the live object (Lognormal keeps an inner Gaussian that has to follow)"""
+    rng = ctx.rng
+    for fam, P, x in [("Beta", {"alpha": [1.0], "beta": [1.0]}, [1.0]), ("Beta", {"alpha": [1.0], "beta": [1.0]}, [0.0]),
+                      ("Beta", {"alpha": [2.0], "beta": [0.5]}, [0.5, 1.0]), ("Uniform", {"low": [0.0], "high": [2.0]}, [2.0, 0.0]),
+                      ("Uniform", {"low": [0.0, 1.0], "high": [2.0, 3.0]}, [2.0, 1.0]), ("InverseGamma", {"shape": [2.0], "location": [1.0], "scale": [1.0]}, [1.0, 2.0]),
+                      ("Lognormal", {"mean": [0.0, 0.0], "cov": [1.0]}, [0.0, 1.0])]:
+        names = FAMILIES[fam][0]
+        n = len(x)
+        forms = "".join("S" if len(P[nm]) == 1 else "V" for nm in names)
+        ifaces = [RAW_FAMILIES.get(fam, IFACES)[0]] * len(names)
+        dist, condvals = build_dist(cuqi, fam, P, n, ifaces, "direct")
+        one_scalar_case(ctx, cuqi, state, cases, stats, fam, P, x, n, forms, "direct", ifaces, "logpdf", dist, condvals, cell_suffix="/on-the-boundary")
+    counter = 0
+    for fam in ("Normal", "Cauchy", "Gamma", "Lognormal", "Laplace", "Uniform", "InverseGamma", "Beta"):
+        names, _, scalar_only = FAMILIES[fam]
+        for n, forms in ((1, "S" * len(names)), (3, "".join("S" if nm in scalar_only else "V" for nm in names))):
+            if fam == "Lognormal" and forms[0] == "S" and n > 1:
+                continue
+            counter += 1
+            Pold = draw_params(rng, fam, forms, n)
+            Pnew = draw_params(rng, fam, forms, n)
+            x = draw_x(rng, fam, Pnew, n, True)
+            ifl = ["float", "array", "npfloat_or_array"]     # (Beta / InverseGamma convert lists only in __init__: a list assigned later raises TypeError)
+            ifaces = [ifl[(counter + j) % len(ifl)] for j in range(len(names))]
+            dist, condvals = build_dist(cuqi, fam, Pold, n, ifaces, "direct")
+            evaluate(dist, "logpdf", draw_x(rng, fam, Pold, n, True), condvals)
+            for i, nm in enumerate(names):
+                if fam == "Lognormal" and nm == "mean":
+                    setattr(dist, nm, np.array(bc(Pnew[nm], n), dtype=float))
+                else:
+                    setattr(dist, nm, pass_value(Pnew[nm], ifaces[i % len(ifaces)], n))
+            one_scalar_case(ctx, cuqi, state, cases, stats, fam, Pnew, x, n, forms, "direct", ifaces, ["logpdf", "logd"][counter % 2], dist, condvals,
+                            cell_suffix="/reassigned-on-live-object")
+            cases[-1].meta["reassigned_from"] = Pold
+
+
 def scalar_oracle(fam, P, x, n, method, obs, forms):
     """the property itself on the implementation: observed value vs the logarithm of the documented density"""
     doc = doc_logpdf(fam, P, x)
@@ -535,7 +598,12 @@ def scalar_oracle(fam, P, x, n, method, obs, forms):
 
 
 def scalar_observe(cuqi, meta):
-    dist, condvals = build_dist(cuqi, meta["family"], meta["params"], meta["dim"], meta["ifaces"], meta["via"])
+    dist, condvals = build_dist(cuqi, meta["family"], meta.get("reassigned_from", meta["params"]), meta["dim"], meta["ifaces"], meta["via"])
+    if "reassigned_from" in meta:
+        names = FAMILIES[meta["family"]][0]
+        for i, nm in enumerate(names):
+            val = np.array(bc(meta["params"][nm], meta["dim"]), dtype=float) if (meta["family"] == "Lognormal" and nm == "mean") else pass_value(meta["params"][nm], meta["ifaces"][i % len(meta["ifaces"])], meta["dim"])
+            setattr(dist, nm, val)
     obs = evaluate(dist, meta["method"], meta["x"], condvals)
     return float(np.asarray(obs).ravel()[0]) if np.size(obs) == 1 else None
 
@@ -1909,7 +1977,8 @@ def mrf_case(ctx, cuqi, state, cases, stats, meta, cell):
                 detarg = detarg / delta ** nullity
             cert = "gmrf_large_cert %s %s %s %s %s %s %s %s %s %s" % (cbool(state["gmrf_large_fixed"]), cnat(order), B, cbool(twod), cnat(N), cql(meta["loc"]), cql(meta["x"]), cql(dd), cnat(ob["rank"]), cq(detarg))
             m = "(gmrf_logpdf %s %s %s %s)" % (cnat(ob["rank"]), cr(meta["par"]), cr(detarg), crl(dd))
-            expr, tac = encl(m, v, cert="(%s)" % cert)
+            # the Cholesky pivot of a null direction is ~2^-26 and carries a rounding error of ~1e-16 |P|: ln det is good to ~1e-7 only
+            expr, tac = encl(m, v, cert="(%s)" % cert, tol=Fraction(1, 10 ** 6))
             cases.append(Case(expr=expr, tac=tac, kind="ENCLOSURE", meta=meta, cell=cell, impl_fail=fail, signature=sig))
             return
         cert = "gmrf_cert_v %s %s %s %s %s %s %s %s %s %s" % (cbool(rk_fixed), cnat(order), B, cbool(twod), cnat(N), cql(meta["loc"]), cql(meta["x"]), cql(dd), cnat(ob["rank"]), cq(detarg))
@@ -2145,6 +2214,8 @@ def run(ctx):
     mrf_threshold_cases(ctx, cuqi, state, cases, stats)
     scalar_magnitude_cases(ctx, cuqi, state, cases, stats)
     scalar_cdf_cases(ctx, cuqi, state, cases, stats)
+    scalar_falsy_cases(ctx, cuqi, state, cases, stats)
+    scalar_boundary_reassign_cases(ctx, cuqi, state, cases, stats)
     # spread the expensive cases (76 x 76 exact determinants) over the shards so that they are evaluated in parallel
     heavy = [c for c in cases if "/densefull/dim" in c.cell]
     light = [c for c in cases if "/densefull/dim" not in c.cell]
